@@ -38,8 +38,7 @@ theorem policy_raising_partial :
   have := (List.all_eq_true.mp ((List.all_eq_true.mp h) m hm)) es hes
   simpa [hr] using this
 
-example : ∃ m ∈ publicTable, ∃ es ∈ m.2, endsRet es = true ∧ es.any (· == .write .mask .rebind) = true :=
-  ⟨("Qube.__iand__", m_Qube___iand__), by decide, by decide⟩
+example : ∃ m ∈ publicTable, ∃ es ∈ m.2, endsRet es = true ∧ es.any (· == .write .mask .rebind) = true := by decide
 
 theorem path_mem {T : Table} {n : String} {i : Nat} {es : List Event} (h : T.path n i = some es) :
     ∃ m ∈ T, es ∈ m.2 := by
@@ -78,6 +77,49 @@ theorem admissible_covered {st : Step} (h : st.admissible publicTable = true) : 
       cases hr : endsRet es with
       | true => exact policy_covers_writes m hm es hes hr
       | false => simpa [hr] using h
+  | events es post fills => simp [Step.admissible] at h
+
+/-! #### loops: any number of iterations -/
+
+/-- T2 for `loopTable` (regenerated): every returning path of a public mutator that contains a loop, in segmented
+    form (straight pieces; loops with their alternative bodies), passes `segsOK`: an iterate of the abstract
+    interpretation of the bodies is CHECKED to be a post-fixpoint, and what follows the loop ends with nothing stale. -/
+theorem loop_policy_checked : ∀ m ∈ loopTable, ∀ segs ∈ m.2, segsOK segs = true := by
+  have h : (loopTable.all fun m => m.2.all segsOK) = true := by decide
+  intro m hm segs hs
+  exact (List.all_eq_true.mp ((List.all_eq_true.mp h) m hm)) segs hs
+
+/-- **hence every unrolling — every number of iterations of every loop, the alternative bodies in any order —
+    satisfies the policy** (`segsOK_expands`: monotonicity of `absEvent` + the checked post-fixpoint) -/
+theorem policy_covers_all_iterations :
+    ∀ m ∈ loopTable, ∀ segs ∈ m.2, ∀ es, Expands segs es → pathOK es = true :=
+  fun m hm segs hs _ he => segsOK_expands (loop_policy_checked m hm segs hs) he
+
+/-- e.g. three iterations of a loop whose body writes a derivative, followed by the final clear -/
+example : pathOK ([.requireWritable, .mayFill] ++
+    [[.write .derivs .store], [.write .derivs .store], [.write .derivs .store]].flatten ++
+    [.write .derivs .rebind, .cacheClear, .ret]) = true :=
+  segsOK_expands (segs := [⟨false, [[.requireWritable, .mayFill]]⟩, ⟨true, [[.write .derivs .store]]⟩,
+                           ⟨false, [[.write .derivs .rebind, .cacheClear, .ret]]⟩]) (by decide)
+    (.straight (.loop (alts := [[.write .derivs .store]])
+      (iters := [[.write .derivs .store], [.write .derivs .store], [.write .derivs .store]]) (by decide)
+      (.straight .nil)))
+
+/-- a loop whose body invalidates without clearing is rejected whatever follows only if nothing clears afterwards -/
+example : segsOK [⟨true, [[.write .mask .rebind]]⟩, ⟨false, [[.ret]]⟩] = false := by decide
+
+example : ∃ m ∈ loopTable, ∃ segs ∈ m.2, segs.any (·.isLoop) = true := by decide
+
+/-- the mutator steps the history theorems speak about: a path of the regenerated table on which the mutator
+    returns (or raises on a covered path), or ANY unrolling of a segmented path of `loopTable` -/
+def Admissible (st : Step) : Prop :=
+  st.admissible publicTable = true ∨
+  ∃ es post fills, st = .events es post fills ∧ ∃ m ∈ loopTable, ∃ segs ∈ m.2, Expands segs es
+
+theorem admissible_covered_all {st : Step} (h : Admissible st) : st.covered publicTable = true := by
+  rcases h with h | ⟨es, post, fills, rfl, m, hm, segs, hs, he⟩
+  · exact admissible_covered h
+  · exact policy_covers_all_iterations m hm segs hs es he
 
 /-! #### the invariant, for histories of any length -/
 
@@ -93,6 +135,7 @@ theorem good_step (T : Table) (st : Step) {s : St} (h : Good s) (hc : st.covered
     | some es =>
       simp only [Step.covered, hp] at hc
       exact good_path post es fills h hc
+  | events es post fills => exact good_path post es fills h hc
 
 theorem good_run (T : Table) (h : List Step) {s : St} (g : Good s) (hc : ∀ st ∈ h, st.covered T = true) :
     Good (run T true h s) := by
@@ -106,9 +149,9 @@ theorem good_run (T : Table) (h : List Step) {s : St} (g : Good s) (hc : ∀ st 
     applied to an object in any state with an empty cache (a new object), every cached entry equals its
     recomputation from the current values, mask, units and read-only flag. -/
 theorem cache_ok_reachable (h : List Step) (c : Core)
-    (hadm : ∀ st ∈ h, st.admissible publicTable = true) :
+    (hadm : ∀ st ∈ h, Admissible st) :
     CacheOK (run publicTable true h ⟨c, Cache.empty⟩) :=
-  good_cacheOK (good_run publicTable h (good_empty c) (fun st hst => admissible_covered (hadm st hst)))
+  good_cacheOK (good_run publicTable h (good_empty c) (fun st hst => admissible_covered_all (hadm st hst)))
 
 example : (Step.mutate "Qube.__iand__" 1 ⟨true, .arr, false, false⟩ []).admissible publicTable = true := by decide
 example : (Step.mutate "Qube.__iadd__" 1 ⟨false, .sFalse, true, false⟩ [[.wod]]).admissible publicTable = true := by decide
@@ -142,42 +185,47 @@ theorem answers_eq (T : Table) (h : List Step) {s1 s2 : St} (g : Good s1) (e : s
         | none => exact e
         | some es => simp only []; rw [execPath_core, execPath_core, e]
       rw [a1, ih g' c1 hrest]
+    | events es post fills =>
+      have c1 : (step T true (.events es post fills) s1).2.core = (step T false (.events es post fills) s2).2.core := by
+        simp only [step]; rw [execPath_core, execPath_core, e]
+      have a1 : (step T true (.events es post fills) s1).1 = (step T false (.events es post fills) s2).1 := rfl
+      rw [a1, ih g' c1 hrest]
 
 /-- **The same history gives the same observable answers with the cache globally disabled**
     (`Qube.DISABLE_CACHE = True`: every lookup misses, qube.py:1272 etc.; `as_readonly` skips the cached objects). -/
-theorem same_as_uncached (h : List Step) (c : Core) (hadm : ∀ st ∈ h, st.admissible publicTable = true) :
+theorem same_as_uncached (h : List Step) (c : Core) (hadm : ∀ st ∈ h, Admissible st) :
     answers publicTable true h ⟨c, Cache.empty⟩ = answers publicTable false h ⟨c, Cache.empty⟩ :=
-  answers_eq publicTable h (good_empty c) rfl (fun st hst => admissible_covered (hadm st hst))
+  answers_eq publicTable h (good_empty c) rfl (fun st hst => admissible_covered_all (hadm st hst))
 
 /-! #### asking twice, or asking other questions in between, never changes an answer -/
 
 /-- in every reachable state a question asked twice in a row gets the same answer -/
-theorem query_idempotent (h : List Step) (c : Core) (hadm : ∀ st ∈ h, st.admissible publicTable = true)
+theorem query_idempotent (h : List Step) (c : Core) (hadm : ∀ st ∈ h, Admissible st)
     (q : Query) :
     let s := run publicTable true h ⟨c, Cache.empty⟩
     (query true q (query true q s).2).1 = (query true q s).1 := by
   intro s
-  have g : Good s := good_run publicTable h (good_empty c) (fun st hst => admissible_covered (hadm st hst))
+  have g : Good s := good_run publicTable h (good_empty c) (fun st hst => admissible_covered_all (hadm st hst))
   rw [query_ans_good q (good_query true q g), query_ans_good q g, query_core]
 
 /-- in every reachable state asking `q'` first does not change the answer to `q` -/
-theorem queries_commute (h : List Step) (c : Core) (hadm : ∀ st ∈ h, st.admissible publicTable = true)
+theorem queries_commute (h : List Step) (c : Core) (hadm : ∀ st ∈ h, Admissible st)
     (q q' : Query) :
     let s := run publicTable true h ⟨c, Cache.empty⟩
     (query true q (query true q' s).2).1 = (query true q s).1 := by
   intro s
-  have g : Good s := good_run publicTable h (good_empty c) (fun st hst => admissible_covered (hadm st hst))
+  have g : Good s := good_run publicTable h (good_empty c) (fun st hst => admissible_covered_all (hadm st hst))
   rw [query_ans_good q (good_query true q' g), query_ans_good q g, query_core]
 
 /-- … and the general form: an extra question inserted ANYWHERE in a history changes none of the later answers,
     however many mutators and questions follow -/
 theorem inserted_query_irrelevant (h1 h2 : List Step) (c : Core) (q' : Query)
-    (hadm1 : ∀ st ∈ h1, st.admissible publicTable = true) (hadm2 : ∀ st ∈ h2, st.admissible publicTable = true) :
+    (hadm1 : ∀ st ∈ h1, Admissible st) (hadm2 : ∀ st ∈ h2, Admissible st) :
     let s := run publicTable true h1 ⟨c, Cache.empty⟩
     answers publicTable true h2 (query true q' s).2 = answers publicTable true h2 s := by
   intro s
-  have g : Good s := good_run publicTable h1 (good_empty c) (fun st hst => admissible_covered (hadm1 st hst))
-  have hc2 : ∀ st ∈ h2, st.covered publicTable = true := fun st hst => admissible_covered (hadm2 st hst)
+  have g : Good s := good_run publicTable h1 (good_empty c) (fun st hst => admissible_covered_all (hadm1 st hst))
+  have hc2 : ∀ st ∈ h2, st.covered publicTable = true := fun st hst => admissible_covered_all (hadm2 st hst)
   rw [answers_eq publicTable h2 (good_query true q' g) (query_core true q' s) hc2,
       answers_eq publicTable h2 g rfl hc2]
 
@@ -194,16 +242,16 @@ theorem derived_policy_covers : ∀ m ∈ derivedTable, ∀ es ∈ m.2, pathOK e
 /-- the object produced by such a fast path from ANY reachable state of the original has a cache without stale
     entries (the new object shares the arrays and starts with the same cache content as the original: the same
     model state) -/
-theorem derived_cache_ok (h : List Step) (c : Core) (hadm : ∀ st ∈ h, st.admissible publicTable = true)
+theorem derived_cache_ok (h : List Step) (c : Core) (hadm : ∀ st ∈ h, Admissible st)
     (m : String × List (List Event)) (hm : m ∈ derivedTable) (es : List Event) (hes : es ∈ m.2)
     (post : Facts) (fills : List (List Query)) :
     CacheOK (execPath true post es fills (run publicTable true h ⟨c, Cache.empty⟩)) :=
   good_cacheOK (good_path post es fills
-    (good_run publicTable h (good_empty c) (fun st hst => admissible_covered (hadm st hst)))
+    (good_run publicTable h (good_empty c) (fun st hst => admissible_covered_all (hadm st hst)))
     (derived_policy_covers m hm es hes))
 
-example : ∃ m ∈ derivedTable, ∃ es ∈ m.2, es.any (· == .write .values .rebind) = true ∧ es.any (· == .cacheDel .wod) = true :=
-  ⟨("Qube.__add__@obj", d_Qube___add___obj), by decide, by decide⟩
+example : ∃ m ∈ derivedTable, ∃ es ∈ m.2,
+    es.any (· == .write .values .rebind) = true ∧ es.any (· == .cacheDel .wod) = true := by decide
 
 /-- what the retained cache must NOT keep: without the `del obj._cache_['wod']` of `clone` the policy fails -/
 theorem derived_needs_wod_removed :
@@ -227,8 +275,7 @@ theorem deriv_alias_cache_ok (d : St) (g : Good d) (m : String × List (List Eve
     CacheOK (execPath true post es fills d) :=
   good_cacheOK (good_path post es fills g (deriv_alias_policy_covers m hm es hes))
 
-example : ∃ m ∈ derivAliasTable, ∃ es ∈ m.2, es.any (· == .write .values .aug) = true :=
-  ⟨_, List.mem_cons_self, _, List.mem_cons_self, by decide⟩
+example : ∃ m ∈ derivAliasTable, ∃ es ∈ m.2, es.any (· == .write .values .aug) = true := by decide
 
 /-! #### regression witnesses: the two defects repaired in /repo, as they were on the pinned tree -/
 
